@@ -56,6 +56,7 @@ package apd
 //@   ensures ret2 <==> (!heapform(z) && z._inline[1] == 0)
 //@   ensures ret2 ==> (u64(ret0) && ret0 == z._inline[0] && ret1 == (z._inner == negSentinel) && val(z) == signed(ret1, ret0))
 //@   ensures !ret2 ==> (ret0 == 0 && !ret1)
+//@   loop 1 decreases 2 - i
 
 //@ func (*BigInt).updateInnerFromUint64
 //@   layer bigint
@@ -63,6 +64,7 @@ package apd
 //@   requires writable(z) && (neg ==> val != 0)
 //@   assigns z
 //@   ensures val(z) == signed(neg, val) && rep(z) && !heapform(z)
+//@   loop 1 decreases 2 - i
 
 //@ func addInline
 //@   layer bigint
